@@ -27,7 +27,7 @@ type cliRow struct {
 
 func runMCC18(sc *work.Scratch, tag string, devs []string, tier string, check bool) (map[string][]cliRow, *tlc.Result, error) {
 	cfg := "SPECIFICATION Spec\nCONSTANTS\n  Devs = " + devSet(devs) + "\n  Tier = \"" + tier + "\"\n  Tag = \"" + tag + "\"\n" +
-		"  Scenarios <- ScenariosDef\n  Silent <- SilentDef\n  Panics <- PanicsDef\n  Hangs <- HangsDef\n  Either <- EitherFaults\n"
+		"  Scenarios <- ScenariosDef\n  Silent <- SilentDef\n  Panics <- PanicsDef\n  Hangs <- HangsDef\n  Either <- EitherFaults\n  RefCollapse <- RefCollapseDef\n"
 	if check {
 		cfg += "INVARIANTS NoPanic Clean Loud Complete NoHalfSuccess EmitOutcome\nPROPERTIES Terminates WriteAfterAll\n"
 	} else {
@@ -107,6 +107,7 @@ func RunCLI(prop, tier, rule string) int {
 		obs   *cli.Obs
 		dir   string
 		bytes string // byte sweep: description
+		ridx  int    // byte sweep: index that seeds the mutation
 	}
 	var jobs []*job
 	for _, k := range keys {
@@ -123,7 +124,7 @@ func RunCLI(prop, tier, rule string) int {
 	}
 	var sweeps []*job
 	for i := 0; i < nb; i++ {
-		sweeps = append(sweeps, &job{key: `{"flags":"bytes","args":[],"outmode":"` + []string{"stdout", "file"}[i%2] + `","iofails":false}`, bytes: "x"})
+		sweeps = append(sweeps, &job{key: `{"flags":"bytes","args":[],"outmode":"` + []string{"stdout", "file"}[i%2] + `","iofails":false}`, bytes: "x", ridx: i})
 	}
 	run := func(j *job, idx int) error {
 		dir := filepath.Join(sc.Dir, "runs", fmt.Sprintf("r%06d", idx))
@@ -140,9 +141,9 @@ func RunCLI(prop, tier, rule string) int {
 			return nil
 		}
 		// byte sweep
-		r := rand.New(rand.NewSource(seed*1000003 + int64(idx)))
+		r := rand.New(rand.NewSource(seed*1000003 + int64(j.ridx)))
 		base := cli.Scenario{Flags: "ok", OutMode: "stdout", Args: []cli.Arg{{Status: "ok"}}}
-		if idx%2 == 1 {
+		if j.ridx%2 == 1 {
 			base.OutMode = "file"
 		}
 		args, wanted, err := cli.Materialize(&base, dir)
@@ -232,7 +233,7 @@ func RunCLI(prop, tier, rule string) int {
 			known++
 		case "violation":
 			// re-execute once before reporting
-			again := &job{key: j.key, s: j.s, bytes: j.bytes}
+			again := &job{key: j.key, s: j.s, bytes: j.bytes, ridx: j.ridx}
 			idx := r.L - 1
 			if err := run(again, 900000+idx); err == nil && again.obs != nil &&
 				(again.obs.Exit != j.obs.Exit || again.obs.Stdout != j.obs.Stdout || len(again.obs.Created) != len(j.obs.Created)) {
